@@ -117,7 +117,7 @@ func runC14(rc *RunCtx) {
 		rc.Cov.Sample(map[string]interface{}{"history_tail": e.history[max(0, len(e.history)-12):]})
 	}
 	// natural failures of the real keepers and late validation failures after the burn
-	for vi, variant := range []string{"ftf-paused", "module-blacklisted", "recipient-blacklisted", "allowance-exhausted", "send-side-paused", "max-body-131", "zero-messenger", "caller-31-bytes", "poor-depositor"} {
+	for vi, variant := range []string{"ftf-paused", "module-blacklisted", "recipient-blacklisted", "allowance-exhausted", "send-side-paused", "max-body-131", "zero-messenger", "caller-31-bytes", "poor-depositor", "short-messenger", "long-messenger"} {
 		if vi%rc.NShards != rc.Shard {
 			continue
 		}
@@ -139,6 +139,14 @@ func runC14(rc *RunCtx) {
 				for i := range gs.TokenMessengerList {
 					gs.TokenMessengerList[i].Address = make([]byte, 32)
 				}
+			case "short-messenger": // only a genesis file can register a messenger that is not 32 bytes long
+				for i := range gs.TokenMessengerList {
+					gs.TokenMessengerList[i].Address = Structured32(7)[:20]
+				}
+			case "long-messenger":
+				for i := range gs.TokenMessengerList {
+					gs.TokenMessengerList[i].Address = append(Structured32(7), 1)
+				}
 			}
 		})
 		if err != nil {
@@ -157,7 +165,7 @@ func runC14(rc *RunCtx) {
 				d := pg.ValidDeposit(false, 0).(*ct.MsgDepositForBurn)
 				d.From = Acct(PoorIx)
 				m = d
-			case "zero-messenger", "max-body-131", "send-side-paused", "module-blacklisted":
+			case "zero-messenger", "max-body-131", "send-side-paused", "module-blacklisted", "short-messenger", "long-messenger":
 				d := pg.ValidDeposit(k%2 == 0, 0)
 				if dd, ok := d.(*ct.MsgDepositForBurn); ok {
 					dd.DestinationDomain = 0
@@ -334,7 +342,7 @@ func init() {
 					miss = append(miss, fmt.Sprintf("fault kind %s hit %d times", kind, hit))
 				}
 			}
-			if len(c.Matrix["C14_natural"]) < 9 {
+			if len(c.Matrix["C14_natural"]) < 11 {
 				miss = append(miss, "natural / late failure variants missing")
 			}
 			return miss
